@@ -160,8 +160,18 @@ No other layout accepts a string of these shapes (the earlier ones start with a 
 name, a two-digit day followed by a blank, or need more text; the later ones fail on the first
 separator), and a string of one of these shapes whose fields are out of range (month 0 or 13, day
 beyond the month's length, hour 24, minute or second 60) is rejected by every layout: `TypeError`.
-Every other string (including `now`) is outside the model. The harness pins `time.Local` to UTC
-(`harness/stream_filter_date.go`; `check` also runs it under `TZ=UTC`), so all five give UTC times.
+The harness pins `time.Local` to UTC (`harness/stream_filter_date.go`; `check` also runs it under
+`TZ=UTC`), so all five give UTC times.
+
+**Strings no layout can accept** (`noLayoutStarts`). Every layout begins with a field, not with literal
+text: a weekday name (`Mon`, `Monday`: 10 layouts), a month name (`Jan`, `January`: 4), a two-digit day
+followed by a blank (`02 Jan …`: 4) or a four-digit year followed by `-` or by the month digits
+(`2006-…`, `20060102T…`: 10). `time.Parse` compares names ignoring ASCII case, wants exactly two
+digits for `02` and exactly four for `2006`. So a string is rejected by all of them — `TypeError` —
+when it is empty, or starts with a byte that is not a digit and its first three bytes are not a
+weekday or month abbreviation in any case, or starts with a digit but neither with two digits and a
+blank nor with four digits and then `-` or a digit. Everything else (the other twenty layouts, and
+`now`, which reads the clock) is outside the model.
 -/
 
 inductive Parsed where
@@ -194,6 +204,34 @@ def ofFields (y mo d h mi s : Option Nat) : Parsed :=
   | some y, some mo, some d, some h, some mi, some s => instant y mo d h mi s
   | _, _, _, _, _, _ => .unknown
 
+/-- the three-letter names `time.Parse` looks for at the start of a value, in lower case -/
+def nameStarts : List Bytes :=
+  [[115, 117, 110], [109, 111, 110], [116, 117, 101], [119, 101, 100], [116, 104, 117], [102, 114, 105], [115, 97, 116],
+   [106, 97, 110], [102, 101, 98], [109, 97, 114], [97, 112, 114], [109, 97, 121], [106, 117, 110], [106, 117, 108],
+   [97, 117, 103], [115, 101, 112], [111, 99, 116], [110, 111, 118], [100, 101, 99]]
+
+/-- no layout of `ParseDate` can read even its first field from `s` -/
+def noLayoutStarts : Bytes → Bool
+  | [] => true
+  | a :: rest =>
+    if isDigit a then
+      match rest with
+      | b :: c :: r =>
+        if !isDigit b then true
+        else if c == 32 then false                          -- `02 Jan …`
+        else
+          match r with
+          | d :: e :: _ => !(isDigit c && isDigit d && (e == 45 || isDigit e))   -- `2006-…`, `20060102T…`
+          | _ => true
+      | _ => true
+    else
+      match rest with
+      | b :: c :: _ => !(nameStarts.contains [a ||| 32, b ||| 32, c ||| 32])
+      | _ => true
+
+/-- `now` -/
+def nowB : Bytes := [110, 111, 119]
+
 def parseDate : Bytes → Parsed
   -- dddd-dd-dd
   | [y1, y2, y3, y4, 45, m1, m2, 45, d1, d2] =>
@@ -210,6 +248,6 @@ def parseDate : Bytes → Parsed
   -- dddd-dd-ddTdd:dd:ddZ
   | [y1, y2, y3, y4, 45, m1, m2, 45, d1, d2, 84, h1, h2, 58, i1, i2, 58, s1, s2, 90] =>
     ofFields (num4 y1 y2 y3 y4) (num2 m1 m2) (num2 d1 d2) (num2 h1 h2) (num2 i1 i2) (num2 s1 s2)
-  | _ => .unknown
+  | s => if s != nowB && noLayoutStarts s then .reject else .unknown
 
 end Cal
